@@ -167,6 +167,10 @@ impl Group for C07 {
             1 => 1 << pick(rng, &[21, 22, 13, 15]),
             2 if rng.chance(1, 3) => 1 << BIT_PERMISSIVE,
             3 => 1 << BIT_NEAR_MISS,
+            // exactly one tag demoted, any of them -- in particular tags of OTHER paths (e.g. the commitment fee
+            // range): the mutual-close bounds must stay enforced, and each monitor is conditioned on its own tag only
+            4 => 1 << rng.below(24),
+            5 => (1 << 8) | (1 << rng.below(12)),
             _ => 0,
         };
         let outbound = rng.chance(1, 2);
